@@ -12,6 +12,7 @@ import (
 
 	expectations "github.com/openkruise/rollouts/pkg/util/expectation"
 	"github.com/openkruise/rollouts/pkg/util/grace"
+	"k8s.io/apimachinery/pkg/runtime"
 )
 
 // Canonical state (DESIGN.md §2 "Canonical state / abstraction"):
@@ -27,6 +28,8 @@ import (
 
 // AgeCap is 1 + the largest duration any guard in the explored scenarios compares an age with.
 var AgeCap int64 = 4
+
+var canonCache = map[runtime.Object]string{}
 
 func clampAge(now, ts int64) int64 {
 	a := now - ts
@@ -100,6 +103,16 @@ func (w *World) CanonObjects() []string {
 	out := make([]string, 0, len(keys))
 	for _, k := range keys {
 		obj := w.Store.Peek(k)
+		// stored objects are immutable and shared between snapshots: the canonical form of every object
+		// that has neither clock-compared timestamps nor cross-object relations (everything but Rollouts)
+		// depends on the object alone and is cached by identity
+		cacheable := k.GVR.Resource != "rollouts"
+		if cacheable {
+			if c, ok := canonCache[obj]; ok {
+				out = append(out, c)
+				continue
+			}
+		}
 		b, _ := json.Marshal(obj)
 		var m map[string]interface{}
 		_ = json.Unmarshal(b, &m)
@@ -135,7 +148,14 @@ func (w *World) CanonObjects() []string {
 		}
 		scrub("", m, now, false)
 		cb, _ := json.Marshal(m) // encoding/json sorts map keys
-		out = append(out, k.String()+"="+string(cb))
+		cs := k.String() + "=" + string(cb)
+		if cacheable {
+			if len(canonCache) > 400000 {
+				canonCache = map[runtime.Object]string{}
+			}
+			canonCache[obj] = cs
+		}
+		out = append(out, cs)
 	}
 	return out
 }
